@@ -235,7 +235,8 @@ REGISTRY = {
     'C17': {
         'theorems': ['PP.C04.sound', 'PP.C17.empty_call', 'PP.C17.hug_only_exact'],
         'modules': VALUE_MODULES + ['PP.Props.Values'],
-        'sections': [{'name': 'calls', 'run': values_sec('calls_section')}],
+        'sections': [{'name': 'calls', 'run': values_sec('calls_section')},
+                     {'name': 'dataclasses-attrs', 'run': simple_sec('sec_extras', 'extras_section')}],
         'trusted': VALUE_TRUSTED,
         'rule': 'objects printed through pretty_call_alt: args/kwargs order, nesting, comments; dataclasses/attrs field selection',
     },
